@@ -61,7 +61,90 @@ func scenarios(prop, tier string) []*Scenario {
 				Maint: []hdr.Op{opClean, opReload}, Attach: []int{0, -1, -2}, Slots: []string{"a", "H"}})
 		}
 		for _, s := range r {
-			s.oracles = []func(*checker){oracleC01}
+			s.oracles = []oracle{oracleC01}
+		}
+	case "C07":
+		r = append(r,
+			&Scenario{Name: "genesis/1-2-subscribers", Cfg: hdr.Config{MaxBranchDepth: 144}, N: pick(6, 7), Subs: 2, Probes: true},
+			&Scenario{Name: "genesis/clean+reload", Cfg: hdr.Config{MaxBranchDepth: 144}, N: pick(5, 6), Subs: 1, M: pick(1, 2),
+				Maint: []hdr.Op{opClean, opReload}},
+		)
+		for _, s := range r {
+			s.oracles = []oracle{oracleC07}
+		}
+	case "C08":
+		for _, d := range []int{0, 1, 2, 144} {
+			r = append(r, &Scenario{Name: "genesis/maxdepth-" + itoa(d), Cfg: hdr.Config{MaxBranchDepth: d, Invalid: []string{"G/a/b"}},
+				N: pick(5, 6), M: 1, Maint: []hdr.Op{opClean}, Probes: true, WorkProbe: true, Subs: 1})
+		}
+		r = append(r, &Scenario{Name: "genesis/synthetic-splits", Cfg: hdr.Config{MaxBranchDepth: 2, Splits: "synth"},
+			N: pick(5, 6), M: 1, Maint: []hdr.Op{opClean}, Probes: true})
+		for _, s := range r {
+			s.oracles = []oracle{oracleC08verdict, oracleC08nochange}
+		}
+	case "C09":
+		r = append(r,
+			&Scenario{Name: "genesis/submit+clean+reload", Cfg: hdr.Config{MaxBranchDepth: 144}, N: pick(5, 6), M: pick(2, 3),
+				Maint: []hdr.Op{opClean, opReload}},
+			&Scenario{Name: "genesis/prune-depth-3", Cfg: hdr.Config{MaxBranchDepth: 2}, N: pick(6, 7), M: pick(1, 2),
+				Maint: []hdr.Op{{K: "cleand", D: 3}, {K: "reloadd", D: 3}}, Slots: []string{"a", "H"}},
+			&Scenario{Name: "genesis/prune-depth-2", Cfg: hdr.Config{MaxBranchDepth: 1}, N: pick(6, 7), M: pick(1, 2),
+				Maint: []hdr.Op{{K: "cleand", D: 2}, {K: "reloadd", D: 2}}, Slots: []string{"a", "H"}},
+		)
+		for _, base := range bases(quick) {
+			r = append(r, &Scenario{Name: baseName(base), Cfg: hdr.Config{MaxBranchDepth: 144, Base: base}, N: pick(3, 4), M: 1,
+				Maint: []hdr.Op{opClean, opReload}, Attach: []int{0, -1, -2}, Slots: []string{"a", "H"}})
+		}
+		for _, s := range r {
+			s.oracles = []oracle{oracleC09}
+		}
+	case "C10":
+		r = append(r,
+			&Scenario{Name: "genesis/clean-anywhere", Cfg: hdr.Config{MaxBranchDepth: 144}, N: pick(6, 7), M: pick(2, 3),
+				Maint: []hdr.Op{opClean}},
+			&Scenario{Name: "genesis/prune-depth-2", Cfg: hdr.Config{MaxBranchDepth: 1}, N: pick(6, 7), M: pick(2, 3),
+				Maint: []hdr.Op{{K: "cleand", D: 2}}, Slots: []string{"a", "H"}},
+			&Scenario{Name: "genesis/prune-depth-3", Cfg: hdr.Config{MaxBranchDepth: 2}, N: pick(6, 7), M: pick(2, 3),
+				Maint: []hdr.Op{{K: "cleand", D: 3}}, Slots: []string{"a", "H"}},
+			&Scenario{Name: "genesis/prune-depth-4", Cfg: hdr.Config{MaxBranchDepth: 2}, N: pick(6, 7), M: 2,
+				Maint: []hdr.Op{{K: "cleand", D: 4}}, Slots: []string{"a", "H"}},
+		)
+		for _, base := range bases(quick) {
+			r = append(r, &Scenario{Name: baseName(base), Cfg: hdr.Config{MaxBranchDepth: 144, Base: base}, N: pick(3, 4), M: 2,
+				Maint: []hdr.Op{opClean}, Attach: []int{0, -1, -2}, Slots: []string{"a", "H"}})
+		}
+		for _, s := range r {
+			s.oracles = []oracle{oracleC10, oracleC01, oracleC08verdict, oracleC09}
+		}
+	case "C11":
+		r = append(r,
+			&Scenario{Name: "genesis/reload-anywhere", Cfg: hdr.Config{MaxBranchDepth: 144}, N: pick(5, 6), M: pick(2, 3),
+				Maint: []hdr.Op{opReload, opClean}},
+			&Scenario{Name: "genesis/initload", Cfg: hdr.Config{MaxBranchDepth: 144, InitLoad: true}, N: pick(5, 6), M: 2,
+				Maint: []hdr.Op{opReload}},
+			&Scenario{Name: "genesis/prune-depth-3", Cfg: hdr.Config{MaxBranchDepth: 2}, N: pick(6, 7), M: pick(2, 3),
+				Maint: []hdr.Op{{K: "reloadd", D: 3}, {K: "cleand", D: 3}}, Slots: []string{"a", "H"}},
+		)
+		for _, base := range bases(quick) {
+			r = append(r, &Scenario{Name: baseName(base), Cfg: hdr.Config{MaxBranchDepth: 144, Base: base}, N: pick(3, 4), M: 2,
+				Maint: []hdr.Op{opReload}, Attach: []int{0, -1, -2}, Slots: []string{"a", "H"}})
+		}
+		for _, s := range r {
+			s.oracles = []oracle{oracleC11, oracleC01, oracleC08verdict}
+		}
+	case "C12":
+		r = append(r,
+			&Scenario{Name: "genesis/crash-in-clean-save", Cfg: hdr.Config{MaxBranchDepth: 144}, N: pick(5, 6), M: pick(2, 3),
+				Maint: []hdr.Op{opClean, opSave, opReload}},
+			&Scenario{Name: "genesis/prune-depth-3", Cfg: hdr.Config{MaxBranchDepth: 2}, N: pick(5, 6), M: 2,
+				Maint: []hdr.Op{{K: "cleand", D: 3}, opSave}, Slots: []string{"a", "H"}},
+		)
+		for _, base := range bases(quick) {
+			r = append(r, &Scenario{Name: baseName(base), Cfg: hdr.Config{MaxBranchDepth: 144, Base: base}, N: pick(2, 3), M: 2,
+				Maint: []hdr.Op{opClean, opSave}, Attach: []int{0, -1}, Slots: []string{"a", "H"}})
+		}
+		for _, s := range r {
+			s.oracles = []oracle{oracleC12}
 		}
 	}
 	for _, s := range r {
